@@ -286,8 +286,9 @@ def main():
         model = run_driver(lines)
         bad = 0
         for l, a, b in zip(lines, impl, model):
-            st = "AGREE" if a == b else "DIFFER"
-            bad += a != b
+            same = R.compare(prop, l, a, b) is True
+            st = "AGREE" if same else "DIFFER"
+            bad += not same
             print(f"{st}\t{l}\timpl={a}\tmodel={b}")
         return 1 if bad else 0
 
